@@ -810,7 +810,33 @@ pub(super) fn bl(
     Ok(())
 }
 
-pub(super) use bl as blr;
+pub(super) fn blr(
+    control_flow_graph: &mut il::ControlFlowGraph,
+    instruction: &bad64::Instruction,
+) -> Result<()> {
+    let block_index = {
+        let block = control_flow_graph.new_block().unwrap();
+
+        // get operands
+        let dst = operand_load(block, &instruction.operands()[0], 64)?;
+
+        // the target is read before the link register is written (`blr x30`)
+        let target = temp0(instruction, 64);
+        block.assign(target.clone(), dst);
+        block.assign(
+            scalar!("x30"),
+            il::expr_const(instruction.address().wrapping_add(4), 64),
+        );
+        block.branch(il::Expression::Scalar(target));
+
+        block.index()
+    };
+
+    control_flow_graph.set_entry(block_index).unwrap();
+    control_flow_graph.set_exit(block_index).unwrap();
+
+    Ok(())
+}
 
 fn cbz_cbnz_tbz_tbnz(
     instruction_graph: &mut il::ControlFlowGraph,
